@@ -573,8 +573,10 @@ pub fn supervise(pi: PropInfo, args: SupArgs, replay_files: Vec<PathBuf>, simpli
                 // deterministic as a violation rather than a crash: still a failing input
                 let known = findings.iter().any(|k| out.contains(&format!("sig={}", k.signature)));
                 if !known {
-                    let path = write_replay(id, &case, &format!("worker died ({how}); replay reports: {}", out.lines().next().unwrap_or("")), "hold");
-                    violations.push((format!("crash/{how}"), out.lines().next().unwrap_or("").to_string(), path));
+                    // the child's own VIOLATION line names a scratch file; report its `sig=` line instead
+                    let what = out.lines().find(|l| l.contains("sig=")).unwrap_or("").trim().to_string();
+                    let path = write_replay(id, &case, &format!("worker died ({how}); replay reports: {what}"), "hold");
+                    violations.push((format!("crash/{how}"), format!("replayed alone: {what}"), path));
                 }
                 continue;
             }
